@@ -56,6 +56,16 @@ def tup(*items):
 _orig_binop = symexec.Executor.binop
 
 
+def _is_len_term(t):
+    """t is syntactically a read of the internal $len field (through any chain of stores)"""
+    if not (z3.is_app(t) and t.decl().kind() == z3.Z3_OP_SELECT):
+        return False
+    a = t.arg(0)
+    while z3.is_app(a) and a.decl().kind() == z3.Z3_OP_STORE:
+        a = a.arg(0)
+    return z3.is_const(a) and a.decl().name().endswith('$len')
+
+
 def _binop(self, st, op, l, r, node):
     if isinstance(op, ast.Mult) and _mine(self):
         lst, cnt = (l, r) if l.kind == 'list' else (r, l)
@@ -64,6 +74,9 @@ def _binop(self, st, op, l, r, node):
             n = as_int(cnt)
             x = lst.items[0]
             self.ctx.note('LIBSPEC list repetition: [x] * n is a fresh list of max(n, 0) copies of x')
+            if _is_len_term(n):
+                st.assume(n >= 0)        # n is len(<list>): lengths are non-negative
+                return st.new_list_sym(n, z3.K(I, x.t), ANY)
             return st.new_list_sym(z3.simplify(z3.If(n > 0, n, 0)), z3.K(I, x.t), ANY)
     return _orig_binop(self, st, op, l, r, node)
 
